@@ -27,6 +27,7 @@ func init() {
 		Rule{ID: "R02g", Doc: "the decoder does not reject a well-formed (e.g. header-only, TC=1) reply: short-buffer guards are exact (shared with C02)", Floor: 8, Run: r02g},
 		Rule{ID: "R16c", Doc: "an exchange never returns (nil, nil): joinErr lists are non-empty at every error return", Floor: 4, AllVariants: true, Run: r16c},
 		Rule{ID: "R03f", Doc: "transport result contract (shared with C03)", Floor: 12, AllVariants: true, Run: r03f},
+		Rule{ID: "R06c", Doc: "the TCP leg reads the whole answer frame with exact-length reads (a split answer must not be completed from stale buffer bytes; shared with C06)", Floor: 6, AllVariants: true, Run: r06c},
 	)
 	reg("C05", "Structural necessary conditions of reply demultiplexing on pipelined connections, decided for all paths: "+
 		"(R05a) wire IDs: nextQid is written only by addQueueC, only as nextQid+1, under the connection mutex, and the uint16 conversion is dominated by a guard proving nextQid <= 65535 (no wrap => IDs pairwise distinct for the connection's life); "+
